@@ -6,10 +6,14 @@
      HN id f ch ot plen         obs            NewADTSHeader
      HE id idd ot sfi ch hl pl bf   hex        ADTSHeader.Encode
      HD id hex                  obs            DecodeADTSHeader on arbitrary bytes
-     HX id ot sfi ch bf lo hi   hash           Encode + Decode for every payload length lo..hi *)
+     HX id ot sfi ch bf lo hi   hash           Encode + Decode for every payload length lo..hi
+     EN id ot f                 cls hex        SetAACDescriptor: the encoded mp4a sample entry
+     ED id hex                  obs            mp4.DecodeBox on the bytes of an mp4a entry
+   ED cases outside the modelled decoder path are answered "SKIP <id>" *)
 open Vx
 open Base
 open C18Model
+open C18EntryModel
 
 let ni s = n_of_int (int_of_string s)
 
@@ -87,4 +91,23 @@ let () =
         let m = string_of_int !h in
         if m = hash then Printf.printf "OK %s\n" id
         else Printf.printf "MISMATCH %s adts-range model_hash=%s\n" id m
+      | ["EN"; id; ot; f; cls; hex] ->
+        let m = match set_aac_descriptor (ni ot) (z_of_hex f) with
+          | Ok bs -> "ok\t" ^ hex_of_bytes bs
+          | _ -> "err\t-" in
+        if m = cls ^ "\t" ^ hex then Printf.printf "OK %s\n" id
+        else Printf.printf "MISMATCH %s SetAACDescriptor model=%s\n" id m
+      | ["ED"; id; hex; obs] ->
+        let data = bytes_of_hex hex in
+        (match decode_entry data with
+         | EUnmodelled -> Printf.printf "SKIP %s\n" id
+         | r ->
+           let m = match r with
+             | EOk e ->
+               let a = match entry_asc data with EOk a -> asc_obs (Ok a) | _ -> "err" in
+               Printf.sprintf "ok/%d/%d/%d/%d/%s/%s" (int_of_n e.e_dri) (int_of_n e.e_cc) (int_of_n e.e_ss)
+                 (int_of_n e.e_rate) (hex_of_bytes e.e_dc) a
+             | _ -> "err" in
+           if m = obs then Printf.printf "OK %s\n" id
+           else Printf.printf "MISMATCH %s DecodeBox(mp4a) model=%s\n" id m)
       | _ -> Printf.printf "BADLINE %s\n" line)
